@@ -125,6 +125,35 @@ func vhAssertContent(s Stack, model []any, id string) {
 // vhAssertIndexViews checks Index(k) for every k in range against the model,
 // using plain in-range indices.
 func vhAssertIndexViews(s Stack, model []any, id string) {
+	n := len(model)
+	if cfg, _ := s.config(); cfg != nil && n > 0 {
+		// every position is also reachable through its negative address when
+		// negative indices are on, and the last one through any oversize index
+		// when forward indices are on
+		if cfg.opt&negidx != 0 {
+			for k := 0; k < n; k++ {
+				v, ok := s.Index(k - n)
+				verifAssert(ok == (model[k] != nil), id+"/negative-index-ok")
+				if model[k] != nil {
+					verifAssert(vhSame(v, model[k]), id+"/negative-index-value")
+				}
+			}
+		} else {
+			_, ok := s.Index(-1)
+			verifAssert(!ok, id+"/negative-index-off")
+		}
+		over := nondetInt()
+		verifAssume(over >= n)
+		v, ok := s.Index(over)
+		if cfg.opt&fwdidx != 0 {
+			verifAssert(ok == (model[n-1] != nil), id+"/forward-index-ok")
+			if model[n-1] != nil {
+				verifAssert(vhSame(v, model[n-1]), id+"/forward-index-value")
+			}
+		} else {
+			verifAssert(!ok, id+"/forward-index-off")
+		}
+	}
 	for k := 0; k < len(model); k++ {
 		v, ok := s.Index(k)
 		if model[k] == nil {
